@@ -4,7 +4,8 @@
 //                     past the supplied length faults; the fault address tells how far past the end it was
 //   * tracking heap - replacement of the global operator new/delete: live block / byte counts (Leak), a cap on the
 //                     size of a single request and of the live total (HugeAlloc), a canary after every block and a
-//                     magic word before it (writes past an internal heap buffer, e.g. the 8-slot HLL coupon list)
+//                     magic word before it (writes past an internal heap buffer, e.g. the 8-slot HLL coupon list), and
+//                     the size of every block compared with the size handed to the sized operator delete (SizeMismatch)
 //   * MemBuf        - an istream buffer over exactly the supplied bytes ("a stream that ends there")
 // Under AddressSanitizer (-fsanitize=address) the canaries are switched off so that ASan's own red zones see the
 // first byte past a block; over-READS of internal heap buffers are only visible in that build.
@@ -126,9 +127,17 @@ static inline void* t_alloc(size_t n, bool nothrow) {
   g_blocks++; g_bytes += (long long)n;
   return h + 1;
 }
-static inline void t_free(void* p) {
+// a SIZED deallocation (operator delete(void*, size_t): what std::allocator<T>::deallocate(p, n) calls with n * sizeof(T))
+// whose size differs from the size the block was allocated with is undefined behaviour; glibc's free() does not notice
+static volatile int g_mismatch = 0;
+static volatile size_t g_mismatch_alloc = 0, g_mismatch_dealloc = 0;
+static const size_t NO_SIZE = ~(size_t)0;
+static inline void t_free(void* p, size_t sized = NO_SIZE) {
   if (!p) return;
   Hdr* h = static_cast<Hdr*>(p) - 1;
+  if (sized != NO_SIZE && h->magic == MAGIC && h->size != sized && !g_mismatch) {
+    g_mismatch = 1; g_mismatch_alloc = h->size; g_mismatch_dealloc = sized;
+  }
   if (h->magic != MAGIC || !canary_ok(h)) { g_smashed = 1; return; }   // do not hand a corrupted block back to malloc
   h->magic = 0;
   if (h->size <= ((size_t)1 << 20)) memset(h + 1, 0xDD, h->size);
@@ -145,7 +154,7 @@ void* operator new(size_t n, const std::nothrow_t&) noexcept { return gb::t_allo
 void* operator new[](size_t n, const std::nothrow_t&) noexcept { return gb::t_alloc(n, true); }
 void operator delete(void* p) noexcept { gb::t_free(p); }
 void operator delete[](void* p) noexcept { gb::t_free(p); }
-void operator delete(void* p, size_t) noexcept { gb::t_free(p); }
-void operator delete[](void* p, size_t) noexcept { gb::t_free(p); }
+void operator delete(void* p, size_t n) noexcept { gb::t_free(p, n); }
+void operator delete[](void* p, size_t n) noexcept { gb::t_free(p, n); }
 void operator delete(void* p, const std::nothrow_t&) noexcept { gb::t_free(p); }
 void operator delete[](void* p, const std::nothrow_t&) noexcept { gb::t_free(p); }
